@@ -83,6 +83,15 @@ class World(EventDispatcher):
         # Code duplication for performance, see add_component
         for component in components:
             component_type = type(component)
+
+            # Manage replaced components (a custom ID may be in use already)
+            if component_type in self._entities.get(entity_id, {}):
+                dead = entity_id in self._dead_entities
+                self.remove_component(entity_id, component_type)
+                # A replacement shall not cancel a pending deletion
+                if dead:
+                    self._dead_entities.add(entity_id)
+
             if component_type not in self._components:
                 self._components[component_type] = set()
 
